@@ -457,6 +457,7 @@ func (e *Env) runGuarded(rc *runCtx, body func()) {
 		defer func() {
 			if x := recover(); x != nil {
 				rc.out.Panic = "escaped: " + fmt.Sprint(x)
+				rc.out.Logs = append(rc.out.Logs, "escaped panic stack: "+string(debug.Stack()))
 			}
 		}()
 		body()
@@ -470,5 +471,5 @@ func (e *Env) runGuarded(rc *runCtx, body func()) {
 		e.broken = true
 	}
 	e.cur = nil
-	rc.out.Logs = e.TakeLogs()
+	rc.out.Logs = append(rc.out.Logs, e.TakeLogs()...)
 }
